@@ -374,4 +374,46 @@ theorem worklist_terminates_flat (ops : List Build.Op) (hv : Build.Valid {} ops)
   worklist_terminates_built ops hv orc
     (Build.flat_uniform (Build.build_builtOk ops {} Build.builtOk_empty hv) (Build.flatWorld_of_ops hv hf))
 
+/-- **C06 at full strength, for every pop order: total and exact.**  With enough fuel (the real algorithm has none) the cycle check
+answers — it neither dies with an assertion nor runs on — and it rejects exactly the scenarios that contain a cycle of connections
+whose accumulated delay is all-zero.  `ensureNoCycles` is `ensureNoCyclesWith (closureFuel n)`; hypotheses: well-shaped dict-like
+tables with sources in range and uniform path cutoffs (the complement of finding D7) -/
+theorem cycle_check_total_exact (sims : List SimCfg) (orc : List Nat) (hS : Shaped sims) (hN : NodupKeys sims) (hU : Uniform sims)
+    (hR : SrcRange sims) :
+    ∃ k, ∀ fuel, k ≤ fuel →
+      (ensureNoCyclesWith fuel sims orc = .ok ∨ ∃ p, ensureNoCyclesWith fuel sims orc = .cycle p) ∧
+      ((∃ p, ensureNoCyclesWith fuel sims orc = .cycle p) ↔ ∃ s p d, RealPath sims s s p d ∧ d.isZero = true) :=
+  Mosaik.cycle_check_total_exact sims orc hS hN hU hR
+
+theorem built_srcRange (ops : List Build.Op) (hv : Build.Valid {} ops) : SrcRange (Build.build ops).sims := by
+  have hb := Build.build_builtOk ops {} Build.builtOk_empty hv
+  intro t s d hd
+  have ht : t < (Build.build ops).sims.length := by
+    by_cases ht : t < (Build.build ops).sims.length
+    · exact ht
+    · rw [List.getD_eq_getElem?_getD, List.getElem?_eq_none (Nat.le_of_not_lt ht)] at hd
+      cases hd
+  exact (hb.inShape t ht (s, d) hd).1
+
+/-- … for every scenario without groups built by valid calls: **no hypothesis left** — the cycle check terminates, never asserts,
+and rejects exactly the scenarios with an unresolved cycle -/
+theorem cycle_check_total_exact_flat (ops : List Build.Op) (hv : Build.Valid {} ops) (hf : Build.flatOps ops = true) (orc : List Nat) :
+    ∃ k, ∀ fuel, k ≤ fuel →
+      (ensureNoCyclesWith fuel (Build.build ops).sims orc = .ok ∨ ∃ p, ensureNoCyclesWith fuel (Build.build ops).sims orc = .cycle p) ∧
+      ((∃ p, ensureNoCyclesWith fuel (Build.build ops).sims orc = .cycle p) ↔
+        ∃ s p d, RealPath (Build.build ops).sims s s p d ∧ d.isZero = true) :=
+  have hb := Build.build_builtOk ops {} Build.builtOk_empty hv
+  cycle_check_total_exact _ orc (Build.built_shaped hb) (Build.built_nodupKeys hb)
+    (Build.flat_uniform hb (Build.flatWorld_of_ops hv hf)) (built_srcRange ops hv)
+
+/-- … and with groups: `Uniform` (decided by the executable `uniformB`) is the one hypothesis -/
+theorem cycle_check_total_exact_built (ops : List Build.Op) (hv : Build.Valid {} ops) (orc : List Nat)
+    (hU : Uniform (Build.build ops).sims) :
+    ∃ k, ∀ fuel, k ≤ fuel →
+      (ensureNoCyclesWith fuel (Build.build ops).sims orc = .ok ∨ ∃ p, ensureNoCyclesWith fuel (Build.build ops).sims orc = .cycle p) ∧
+      ((∃ p, ensureNoCyclesWith fuel (Build.build ops).sims orc = .cycle p) ↔
+        ∃ s p d, RealPath (Build.build ops).sims s s p d ∧ d.isZero = true) :=
+  have hb := Build.build_builtOk ops {} Build.builtOk_empty hv
+  cycle_check_total_exact _ orc (Build.built_shaped hb) (Build.built_nodupKeys hb) hU (built_srcRange ops hv)
+
 end Mosaik.C06
